@@ -29,6 +29,7 @@ func Bin() string {
 type Ports struct{ Ingress, Pull, Admin int }
 
 var portMu sync.Mutex
+
 // below the kernel's ephemeral range (32768+), which client connections draw their source ports from
 var nextPort = 10000 + (os.Getpid()%300)*60
 
@@ -58,16 +59,16 @@ func FreePorts() (Ports, error) {
 
 type Proc struct {
 	Template string
-	Dir     string
-	Cfg     string
-	DB      string
-	PIDFile string
-	Ports   Ports
-	Cmd     *exec.Cmd
-	LogPath string
-	done    chan struct{}
-	exitErr error
-	Client  *http.Client
+	Dir      string
+	Cfg      string
+	DB       string
+	PIDFile  string
+	Ports    Ports
+	Cmd      *exec.Cmd
+	LogPath  string
+	done     chan struct{}
+	exitErr  error
+	Client   *http.Client
 }
 
 type StartOpts struct {
